@@ -23,6 +23,9 @@ pub struct Case {
 }
 
 fn fill(buf: &mut [u8], flavour: u8, seed: u16, history: &[u8]) {
+    if buf.is_empty() {
+        return;
+    }
     let mut r = Rng(seed as u64 * 31 + flavour as u64);
     match flavour % 7 {
         0 => buf.iter_mut().for_each(|b| *b = r.below(2) as u8),
@@ -81,7 +84,7 @@ fn run_history(m: &mut MatchGeneratorDriver, max_window: usize, steps: &[Step], 
                 ensure!(!space.is_empty(), "empty_space", "get_next_space returned an empty buffer");
                 let n = match fixed {
                     Some(f) => f[bi].len(),
-                    None => (*len as usize).clamp(1, space.len()),
+                    None => (*len as usize).min(space.len()), // 0: an empty block is a block too
                 };
                 ensure!(n <= space.len() && n <= max_window, "space_too_small", "space of {} bytes for a block of {n}", space.len());
                 match fixed {
@@ -192,7 +195,7 @@ fn run_history(m: &mut MatchGeneratorDriver, max_window: usize, steps: &[Step], 
 
 fn case_strategy() -> impl Strategy<Value = Case> {
     let step = prop_oneof![
-        12 => (prop_oneof![1u16..=4, 1u16..=40, 1u16..=4096], 0u8..=6, any::<u16>(), prop::bool::weighted(0.2)).prop_map(|(len, flavour, seed, skip)| Step::Block { len, flavour, seed, skip }),
+        12 => (prop_oneof![1 => Just(0u16), 6 => 1u16..=4, 6 => 1u16..=40, 6 => 1u16..=4096], 0u8..=6, any::<u16>(), prop::bool::weighted(0.2)).prop_map(|(len, flavour, seed, skip)| Step::Block { len, flavour, seed, skip }),
         1 => Just(Step::Reset),
     ];
     (prop_oneof![8u16..=16, 8u16..=200, 200u16..=4096], 1u8..=8, prop::collection::vec(step, 1..=24)).prop_map(|(slice_size, slices, steps)| Case { slice_size, slices, steps })
